@@ -36,6 +36,20 @@ def handleCc (args obs : List String) : Verdict :=
       detail := String.join (keys.map (" key=" ++ ·)) }
   | _ => bad "arity"
 
+/-- `ccavx <near|far> | in=<32 words> rec=<32 words>`: the eight 256-bit vector argument
+    registers as the caller loaded them and as the fake received them -/
+def handleCcAvx (args obs : List String) : Verdict :=
+  match args with
+  | [form] =>
+    let inb := parseWords ((kv obs "in").getD "")
+    let recw := parseWords ((kv obs "rec").getD "")
+    if inb.length != 32 || recw.length != 32 then bad "lengths" else
+    let ok := inb == recw
+    let upperOnly := !ok && (List.range 8).all fun i => inb.getD (4 * i) 0 == recw.getD (4 * i) 1 && inb.getD (4 * i + 1) 0 == recw.getD (4 * i + 1) 1
+    { agree := ok, propOk := ok, branch := "cc-avx-" ++ form ++ (if upperOnly then "+upper-halves-lost" else ""),
+      detail := if ok then "" else " key=c13.vector-arg" }
+  | _ => bad "arity"
+
 def handleCcRust (_args obs : List String) : Verdict :=
   let ok := kv obs "ok" == some "1" && kv obs "restored" == some "1"
   { agree := ok, propOk := ok, branch := "cc-rust-shapes", detail := if ok then "" else " key=c13.rust-shape" }
